@@ -12,10 +12,10 @@ Batch  == JsonDeserialize(IOEnv.TRACE_FILE)
 Traces == Batch.traces
 
 VARIABLES tid, l, ann, handon, unsched, cann, collected, accepted, named, toreg,
-          pexit, killed, target, errs, fin
+          pexit, killed, target, spawned, excused, errs, fin
 
 vars == <<tid, l, ann, handon, unsched, cann, collected, accepted, named, toreg,
-          pexit, killed, target, errs, fin>>
+          pexit, killed, target, spawned, excused, errs, fin>>
 
 T      == Traces[tid]
 Ev     == T.events
@@ -32,6 +32,8 @@ Init ==
   /\ pexit = [t \in Uids |-> "none"]      \* exit code of the process, "none" = not exited
   /\ killed = {}
   /\ target = [t \in Uids |-> "none"]
+  /\ spawned = {}        \* tasks whose process object was attached to the task
+  /\ excused = {}        \* named tasks a canceler looked at and found already done / owned by the watcher
   /\ errs = {} /\ fin = FALSE
 
 Asked(t) == t \in named \/ t \in toreg
@@ -43,36 +45,36 @@ Step ==
      /\ CASE e.ev = "Accept" ->
                /\ accepted' = accepted \cup {t}
                /\ errs' = errs \cup E(t \notin accepted, "C07.AcceptedTwice")
-               /\ UNCHANGED <<ann, handon, unsched, cann, collected, named, toreg, pexit, killed, target>>
+               /\ UNCHANGED <<ann, handon, unsched, cann, collected, named, toreg, pexit, killed, target, spawned, excused>>
           [] e.ev = "CancelMsg" ->
                /\ named' = named \cup SeqSet(e.uids)
-               /\ UNCHANGED <<ann, handon, unsched, cann, collected, accepted, toreg, pexit, killed, target, errs>>
+               /\ UNCHANGED <<ann, handon, unsched, cann, collected, accepted, toreg, pexit, killed, target, spawned, excused, errs>>
           [] e.ev = "RegTimeout" ->
                /\ toreg' = toreg \cup {t}
-               /\ UNCHANGED <<ann, handon, unsched, cann, collected, accepted, named, pexit, killed, target, errs>>
+               /\ UNCHANGED <<ann, handon, unsched, cann, collected, accepted, named, pexit, killed, target, spawned, excused, errs>>
           [] e.ev = "ProcExit" ->
                /\ pexit' = [pexit EXCEPT ![t] = e.code]
-               /\ UNCHANGED <<ann, handon, unsched, cann, collected, accepted, named, toreg, killed, target, errs>>
+               /\ UNCHANGED <<ann, handon, unsched, cann, collected, accepted, named, toreg, killed, target, spawned, excused, errs>>
           [] e.ev = "Kill" ->
                /\ killed' = killed \cup {t}
                /\ errs' = errs \cup E(Asked(t), "C08.KilledNotNamed")
                                \cup E(collected[t] # {}, "C07.KilledWithoutOwning")
-               /\ UNCHANGED <<ann, handon, unsched, cann, collected, accepted, named, toreg, pexit, target>>
+               /\ UNCHANGED <<ann, handon, unsched, cann, collected, accepted, named, toreg, pexit, target, spawned, excused>>
           [] e.ev = "DelTasks" ->
                /\ collected' = [collected EXCEPT ![t] = @ \cup {e.who}]
                /\ errs' = errs \cup E(collected[t] = {}, "C07.CollectedTwice")
-               /\ UNCHANGED <<ann, handon, unsched, cann, accepted, named, toreg, pexit, killed, target>>
+               /\ UNCHANGED <<ann, handon, unsched, cann, accepted, named, toreg, pexit, killed, target, spawned, excused>>
           [] e.ev = "PubUnsched" ->
                /\ unsched' = [u \in Uids |-> IF u \in SeqSet(e.uids) THEN unsched[u] + 1 ELSE unsched[u]]
                /\ errs' = errs \cup UNION {E(unsched[u] = 0, "C07.ReleasedTwice") : u \in SeqSet(e.uids)}
                                \cup UNION {E(u \in accepted, "C07.ReleaseUnknown") : u \in SeqSet(e.uids)}
-               /\ UNCHANGED <<ann, handon, cann, collected, accepted, named, toreg, pexit, killed, target>>
+               /\ UNCHANGED <<ann, handon, cann, collected, accepted, named, toreg, pexit, killed, target, spawned, excused>>
           [] e.ev = "Adv" ->
                IF e.state = "AGENT_EXECUTING" THEN
                  /\ ann' = [ann EXCEPT ![t] = @ + 1]
                  /\ errs' = errs \cup E(ann[t] = 0, "C07.StartAnnouncedTwice")
                                  \cup E(t \in accepted, "C07.StartWithoutAccept")
-                 /\ UNCHANGED <<handon, unsched, cann, collected, accepted, named, toreg, pexit, killed, target>>
+                 /\ UNCHANGED <<handon, unsched, cann, collected, accepted, named, toreg, pexit, killed, target, spawned, excused>>
                ELSE IF e.state = "AGENT_STAGING_OUTPUT_PENDING" /\ e.push THEN
                  /\ handon' = [handon EXCEPT ![t] = @ + 1]
                  /\ target' = [target EXCEPT ![t] = e.target]
@@ -85,37 +87,62 @@ Step ==
                       \cup E(e.target = "CANCELED" => collected[t] \subseteq {"intake", "control", "timeout"}, "C07.CanceledAndCollected")
                       \cup E(e.target \in {"DONE", "FAILED"} => collected[t] = {"watcher"}, "C07.CanceledAndCollected")
                       \cup E(pexit[t] # "none", "C07.HandedOnWhileRunning")
-                 /\ UNCHANGED <<ann, unsched, cann, collected, accepted, named, toreg, pexit, killed>>
+                 /\ UNCHANGED <<ann, unsched, cann, collected, accepted, named, toreg, pexit, killed, spawned, excused>>
                ELSE IF e.state = "FAILED" THEN
                  /\ handon' = [handon EXCEPT ![t] = @ + 1]
                  /\ target' = [target EXCEPT ![t] = "FAILED"]
                  /\ errs' = errs \cup E(handon[t] = 0, "C07.HandedOnTwice")
                       \cup E(T.spec[t].fault # "none", "C07.FailedAlthoughLaunched")
-                 /\ UNCHANGED <<ann, unsched, cann, collected, accepted, named, toreg, pexit, killed>>
+                 /\ UNCHANGED <<ann, unsched, cann, collected, accepted, named, toreg, pexit, killed, spawned, excused>>
                ELSE IF e.state = "CANCELED" THEN
                  /\ cann' = [cann EXCEPT ![t] = @ + 1]
                  /\ errs' = errs \cup E(cann[t] = 0, "C07.CancelAnnouncedTwice")
                                  \cup E(t \in named, "C08.CanceledNotNamed")
-                 /\ UNCHANGED <<ann, handon, unsched, collected, accepted, named, toreg, pexit, killed, target>>
+                 /\ UNCHANGED <<ann, handon, unsched, collected, accepted, named, toreg, pexit, killed, target, spawned, excused>>
                ELSE
                  /\ errs' = errs \cup {"C07.UnexpectedAdvance"}
-                 /\ UNCHANGED <<ann, handon, unsched, cann, collected, accepted, named, toreg, pexit, killed, target>>
+                 /\ UNCHANGED <<ann, handon, unsched, cann, collected, accepted, named, toreg, pexit, killed, target, spawned, excused>>
           [] e.ev = "End" ->
                /\ errs' = errs
                     \cup E(e.error = "none", "C07.ThreadDiedOrDeadlock")
                     \cup UNION {E(handon[u] = 1, "C07.LeftBehind") : u \in accepted}
                     \cup UNION {E(unsched[u] = 1, "C07.NeverReleased") : u \in accepted}
                     \cup UNION {E(u \in killed => target[u] = "CANCELED", "C08.KilledButNotCanceled") : u \in accepted}
+                    \* a named task is stopped, unless a canceler found it done / collected / never launched
+                    \cup UNION {E(target[u] = "CANCELED" \/ u \in excused \/ T.spec[u].fault # "none",
+                                  "C08.NamedNotStopped") : u \in (accepted \cap named)}
                     \cup E(SeqSet(e.tasks) \subseteq {u \in Uids : T.spec[u].fault # "none"}, "C07.StaleTaskEntry")
-               /\ UNCHANGED <<ann, handon, unsched, cann, collected, accepted, named, toreg, pexit, killed, target>>
+               /\ UNCHANGED <<ann, handon, unsched, cann, collected, accepted, named, toreg, pexit, killed, target, spawned, excused>>
+          [] e.ev = "Spawn" ->
+               /\ spawned' = spawned \cup {t}
+               /\ UNCHANGED <<ann, handon, unsched, cann, collected, accepted, named, toreg, pexit, killed, target, excused, errs>>
+          \* a canceling thread (control, timeout, intake after a positive late check)
+          \* found the task already done, or already owned by the watcher
+          [] e.ev = "Poll" /\ e.who \in {"control", "timeout", "intake"} ->
+               /\ excused' = IF e.code # "none" THEN excused \cup {t} ELSE excused
+               /\ UNCHANGED <<ann, handon, unsched, cann, collected, accepted, named, toreg, pexit, killed, target, spawned, errs>>
+          [] e.ev = "Member" /\ e.who \in {"control", "timeout", "intake"} ->
+               /\ excused' = IF ~e.res THEN excused \cup {t} ELSE excused
+               /\ UNCHANGED <<ann, handon, unsched, cann, collected, accepted, named, toreg, pexit, killed, target, spawned, errs>>
+          [] e.ev = "GetProc" /\ e.who \in {"control", "timeout", "intake"} ->
+               /\ excused' = IF ~e.present /\ t \in spawned THEN excused \cup {t} ELSE excused
+               /\ UNCHANGED <<ann, handon, unsched, cann, collected, accepted, named, toreg, pexit, killed, target, spawned, errs>>
+          [] e.ev = "GetTask" ->
+               /\ excused' = IF ~e.present /\ t \in Uids /\ t \in accepted /\ collected[t] # {} THEN excused \cup {t} ELSE excused
+               /\ UNCHANGED <<ann, handon, unsched, cann, collected, accepted, named, toreg, pexit, killed, target, spawned, errs>>
+          \* kill probe (real LaunchMethod.cancel_task on real processes)
+          [] e.ev = "ProbeEnd" ->
+               /\ errs' = errs \cup E(e.target \in SeqSet(e.dead), "C08.NamedNotKilled")
+                               \cup E(SeqSet(e.dead) \subseteq {e.target}, "C08.BystanderKilled")
+               /\ UNCHANGED <<ann, handon, unsched, cann, collected, accepted, named, toreg, pexit, killed, target, spawned, excused>>
           [] OTHER ->
-               UNCHANGED <<ann, handon, unsched, cann, collected, accepted, named, toreg, pexit, killed, target, errs>>
+               UNCHANGED <<ann, handon, unsched, cann, collected, accepted, named, toreg, pexit, killed, target, spawned, excused, errs>>
   /\ UNCHANGED tid
 
 Finish ==
   /\ ~fin /\ l > Len(Ev) /\ fin' = TRUE
   /\ PrintT(<<"RESULT", T.tid, errs>>)
-  /\ UNCHANGED <<tid, l, ann, handon, unsched, cann, collected, accepted, named, toreg, pexit, killed, target, errs>>
+  /\ UNCHANGED <<tid, l, ann, handon, unsched, cann, collected, accepted, named, toreg, pexit, killed, target, spawned, excused, errs>>
 
 Next == Step \/ Finish
 Spec == Init /\ [][Next]_vars
